@@ -263,16 +263,16 @@ pub fn replay(v: &serde_json::Value) -> Option<i32> {
     for i in 0..3 {
         match run_batch(&e, 7000 + i, &[(ty, op)]) {
             Ok(r) if !r.failures.is_empty() => {
-                println!("replay: FAIL {}", r.failures[0].2);
+                crate::outln!("replay: FAIL {}", r.failures[0].2);
                 return Some(1);
             }
             Ok(_) => {}
             Err(m) => {
-                println!("replay: inconclusive {}", m);
+                crate::outln!("replay: inconclusive {}", m);
                 return Some(2);
             }
         }
     }
-    println!("replay: PASS");
+    crate::outln!("replay: PASS");
     Some(0)
 }
